@@ -10,7 +10,7 @@ B_OPS = [{"op": "read", "i": 0}, {"op": "clone", "i": 0}, {"op": "drop", "i": 0}
 S_OPS = [{"op": "clone_s"}, {"op": "read_s"}, {"op": "slice_s"}, {"op": "is_unique_s"}]
 M_OPS = [{"op": "write", "i": 0}, {"op": "reserve", "i": 0, "n": 16}, {"op": "try_reclaim", "i": 0, "n": 6}, {"op": "freeze", "i": 0},
          {"op": "drop", "i": 0}, {"op": "read", "i": 0}, {"op": "put", "i": 0}, {"op": "advance", "i": 0, "n": 1}, {"op": "split_off", "i": 0},
-         {"op": "split_to", "i": 0}]
+         {"op": "split_to", "i": 0}, {"op": "into_vec", "i": 0}]
 # after an op that creates handle 1 (clone / clone_s / slice)
 B_OPS2 = [{"op": "read", "i": 1}, {"op": "drop", "i": 1}, {"op": "try_into_mut", "i": 1}, {"op": "into_vec", "i": 1}]
 
@@ -80,6 +80,9 @@ def programs(tier, seed):
             for conv in ("into_vec", "into_mut", "try_into_mut"):
                 canon.append({"init": init, "threads": [[{"op": conv, "i": 0}], dd]})
     canon.append({"init": {"repr": "prom", "len": 8, "off": 0, "give": False}, "threads": [[{"op": "clone_s"}, {"op": "drop", "i": 0}], [{"op": "clone_s"}, {"op": "drop", "i": 0}]]})
+    # a BytesMut piece becomes a Vec while the other handles of the buffer are dropped elsewhere
+    for kinds in (["M", "M"], ["M", "B"]):
+        canon.append({"init": {"repr": "sharedm", "len": 8, "kinds": kinds}, "threads": [[{"op": "into_vec", "i": 0}], [{"op": "read", "i": 0}, {"op": "drop", "i": 0}]]})
     # uniqueness queried while another thread promotes / releases
     for off in (0, 3):
         canon.append({"init": {"repr": "prom", "len": 8, "off": off, "give": False}, "threads": [[{"op": "clone_s"}, {"op": "drop", "i": 0}], [{"op": "is_unique_s"}, {"op": "is_unique_s"}]]})
